@@ -144,3 +144,4 @@ PROP = {
                   "files live in a private mkdtemp directory and are unlinked case by case.",
     "assumptions": STD_ASSUME + ["the configuration builds use hooks off (plain library) with g++ 12 and clang++ 14 at -O0 and -O2", "value/unit and value are normal finite doubles (|.| in 1e-300..1e300) or exactly 0"],
 }
+PROP["level_text"] += ' A third of the exports go onto a file that already exists; unit factors include exactly 1, -1, 2, 0.5 and 10; In_Units with rounding must return a number with the requested digits within half a unit of the last digit of the quotient.'
